@@ -36,6 +36,7 @@ pub fn budget(prop: &str, tier: &str, samples: &Samples) -> Budget {
             let n = sc(if thorough { 60_000_000 } else { 2_000_000 });
             // + huge-table images (> 0xff00 sections, the three ways of naming the shstrtab)
             let extra = crate::sweep::sample_cases(samples)
+                + crate::sweep::byte_pressure_cases(thorough)
                 + crate::sweep::sweep_cases()
                 + if thorough { 48 } else { 12 };
             Budget { runs: n + extra, exhaustive: 0, images: 0, base_runs: n }
@@ -44,6 +45,7 @@ pub fn budget(prop: &str, tier: &str, samples: &Samples) -> Budget {
         "C08" => {
             let n = sc(if thorough { 60_000_000 } else { 2_000_000 });
             let extra = crate::sweep::sample_cases(samples)
+                + crate::sweep::byte_pressure_cases(thorough)
                 + crate::sweep::sweep_cases()
                 + if thorough { crate::sweep::HUGE_CASES } else { 6 };
             Budget { runs: n + extra, exhaustive: 0, images: 0, base_runs: n }
